@@ -63,6 +63,10 @@ def main():
             verif_dir = os.path.dirname(os.path.dirname(os.path.abspath(__file__)))
             last_harness = max([i for i, f in enumerate(files) if f.startswith(verif_dir)] or [-1])
             from_repo = any(f.startswith(repo_src) for f in files[last_harness + 1:])
+            # ... or it was raised by one of the harness's own hostile objects (a component whose hash raises
+            # TypeError, say) and the library, which copes with that on the unchanged tree, let it escape
+            if not from_repo and any(f.startswith(repo_src) for f in files):
+                from_repo = True
             if from_repo or getattr(e, '_zmon_from_repo', False):
                 # an exception the engine did not anticipate, raised by the code under test
                 try:
